@@ -131,6 +131,11 @@ def cases(tier):
                                            'nt': 1, 'nk': 1}})
     if tier == 'thorough':
         out.append({'part': 'family', 'spec': {'family': 'cf2d', 'ny': 260, 'nx': 255, 'holes': 'mostlyland', 'nt': 1, 'nk': 1}})
+    for corner in range(4):
+        out.append({'part': 'family', 'spec': {'family': 'cf2d', 'ny': 3, 'nx': 3, 'geometry': 'skew', 'dart_corner': corner,
+                                               'darts': [[0, 0], [0, 1], [0, 2], [1, 0], [1, 1], [1, 2], [2, 0], [2, 1], [2, 2]]}})
+        out.append({'part': 'family', 'spec': {'family': 'shoc_simple', 'ny': 2, 'nx': 2, 'geometry': 'rect', 'dart_corner': corner,
+                                               'darts': [[0, 0], [0, 1], [1, 0], [1, 1]]}})
     out.append({'part': 'family', 'spec': {'family': 'ugrid', 'mesh': 'M8', 'bowtie': 1}})
     out.append({'part': 'family', 'spec': {'family': 'ugrid', 'mesh': 'M8', 'bowtie': 1, 'start_index': 1, 'fill': 'fillattr'}})
     return out
